@@ -8,10 +8,13 @@ import json, os, shutil, subprocess, sys, tempfile
 ROOT = "/verif"
 pid, i = sys.argv[1], sys.argv[2]
 keep = "--keep" in sys.argv
+rnd = ""
+if "--round" in sys.argv:
+    rnd = sys.argv[sys.argv.index("--round") + 1] + "-"
 rev = None
 if "--rev" in sys.argv:
     rev = sys.argv[sys.argv.index("--rev") + 1]
-checks = [a for a in sys.argv[3:] if a.startswith("C") and len(a) == 3] or [pid]
+checks = [a for a in sys.argv[3:] if a.startswith("C") and len(a) == 3 and a[1:].isdigit()] or [pid]
 src = "/tmp/seed-%s-out" % pid
 patch, demo, notes = ("%s/%s%s%s" % (src, n, i, e) for n, e in (("patch", ".diff"), ("demo", ".py"), ("notes", ".md")))
 d = tempfile.mkdtemp(prefix="canopen-seed-")
@@ -47,7 +50,7 @@ finally:
     shutil.rmtree(d, ignore_errors=True)
 print(json.dumps(res, indent=1))
 if keep:
-    out = os.path.join(ROOT, "seeded", "%s-%s" % (pid, i))
+    out = os.path.join(ROOT, "seeded", "%s-%s%s" % (pid, rnd, i))
     os.makedirs(out, exist_ok=True)
     shutil.copy(patch, os.path.join(out, "patch.diff"))
     shutil.copy(demo, os.path.join(out, "demo.py"))
